@@ -86,7 +86,8 @@ def window_body(ctx, case):
                                 f"right neighbour)", detail=dict(seg=seg.tolist()))
         if monotone_ok:
             pre = [float(v) for v in seg[:p]] + [yk]
-            suf = [yk] + [float(v) for v in seg[n - s:]]
+            # the right border value is the first sample of the next interval (the final sample for the last one)
+            suf = [yk] + [float(v) for v in seg[n - s:]] + ([float(zs[(k + 1) * n])] if s > 0 else [])
             for name, run in (("prefix", pre), ("suffix", suf)):
                 d = np.diff(run)
                 if len(d) and not (np.all(d >= -thr) or np.all(d <= thr)):
